@@ -583,7 +583,13 @@ pub fn run(ctx: &Ctx) -> Report {
             cmds.push(Cmd::quit());
         }
         let first_cut = if rng.bool() { rng.range(1, 60) as usize } else { 0 };
-        let c = TlsCase { tls13, with_cert, server_mode: mode, user: CANARY_USER.to_vec(), cmds, scripts, first_cut, cycle, write_limit: wl, close_notify, raw_limit: None, hs_variant: if rng.bool() { rng.next() | 1 } else { 0 }, app_override: None, seqs: (1, 2), auth_reject: None, record_per_command: rng.bool(), write_fault: None, buffer_writes: rng.bool() };
+        // (the anonymous user - an empty name - is a name like any other, with or without a certificate)
+        let uname: Vec<u8> = match rng.below(6) {
+            0 => vec![],
+            1 => b"root".to_vec(),
+            _ => CANARY_USER.to_vec(),
+        };
+        let c = TlsCase { tls13, with_cert, server_mode: mode, user: uname, cmds, scripts, first_cut, cycle, write_limit: wl, close_notify, raw_limit: None, hs_variant: if rng.bool() { rng.next() | 1 } else { 0 }, app_override: None, seqs: (1, 2), auth_reject: None, record_per_command: rng.bool(), write_fault: None, buffer_writes: rng.bool() };
         let o = match run_tls(mref, &c) {
             Ok(o) => o,
             Err(e) => {
